@@ -34,10 +34,16 @@ def run_case(ctx, case):
     G = GeneratorKnotVector
     if kind == "gen":
         gen, p, n, clsname = c["gen"], int(c["p"]), int(c["n"]), c["cls"]
-        cls = {"int": int, "float": float, "Fraction": F}[clsname]
+        cls = {"int": int, "float": float, "Fraction": F, "mixed": F}[clsname]
+        if clsname == "mixed":
+            # a weight list whose entries have different number types (every value exactly representable in its type)
+            tmap = {"int": int, "float": float, "Fraction": F}
+            wsi = [tmap[t](w) for t, w in zip(c["wtypes"], c["ws"])]
+        elif gen == "weight":
+            wsi = [cls(w) if clsname != "Fraction" else w for w in c["ws"]]
         rec.case(case, nontrivial=n > p + 1)
         rec.count("gen", gen + "/" + clsname)
-        exact = clsname != "float"
+        exact = clsname != "float" and not (clsname == "mixed" and "float" in c["wtypes"])
         if gen == "bezier":
             r = impl(lambda: G.bezier(p, cls))
             m = drv.call("gen.bezier", p)
@@ -50,7 +56,7 @@ def run_case(ctx, case):
             m = drv.call("gen.uniform", p, n)
         elif gen == "weight":
             ws = c["ws"]
-            r = impl(lambda: G.weight(p, [cls(w) if clsname != "Fraction" else w for w in ws]))
+            r = impl(lambda: G.weight(p, list(wsi)))
             m = drv.call("gen.weight", p, ws)
             n = p + len(ws)
         elif gen == "random":
@@ -83,7 +89,8 @@ def run_case(ctx, case):
                 rec.violation("%s: spacing is not equal" % gen, case, observed=ser(steps[:5]))
         if gen == "weight":
             ks = sorted(set(U))
-            if [b - a for a, b in zip(ks[:-1], ks[1:])] != [frac(cls(w) if clsname != "Fraction" else w) for w in c["ws"]]:
+            steps_ = [b - a for a, b in zip(ks[:-1], ks[1:])]
+            if len(steps_) != len(wsi) or any((s_ != frac(w)) if exact else not close(s_, frac(w), F(1, 10**12)) for s_, w in zip(steps_, wsi)):
                 rec.violation("weight: knot spacing differs from the weights", case)
         if clsname == "Fraction" and not all(isinstance(x, F) for x in kv):
             rec.violation("%s: knots are not exact Fractions for cls=Fraction" % gen, case, observed=str([type(x).__name__ for x in kv][:4]))
@@ -245,6 +252,13 @@ def run(ctx):
         if gen == "random":
             case["npseed"] = rng.randint(0, 2**31 - 1)
         run_case(ctx, ser(case))
+        if gen == "weight" and i % 2 == 0:
+            k = rng.randint(2, 7)
+            wt = [rng.choice(["int", "float", "Fraction"]) for _ in range(k)]
+            if i % 4 == 0:
+                wt[0] = "int"
+            ws = [F(rng.randint(1, 9)) if t == "int" else (F(rng.randint(1, 40), 8) if t == "float" else F(rng.randint(1, 40), rng.randint(2, 7))) for t in wt]
+            run_case(ctx, ser(dict(kind="gen", gen="weight", p=p, n=n, cls="mixed", ws=ws, wtypes=wt)))
     for i in range(budget(ctx, 60, 800)):
         U = rand_kv(rng, bigknots=(rng.random() < 0.1))
         run_case(ctx, ser(dict(kind="affine", U=U, a=rand_rat(rng), s=F(rng.randint(1, 9), rng.randint(1, 5)), rep=rng.choice(["fraction", "fraction", "float"]))))
